@@ -151,3 +151,21 @@ def spec_tagged_default_term(ctx, cls_key: str, field_name: str):
         return jsonable(term_of(d))
     except (Raised, Limit, StopIteration):
         return None
+
+
+def writer_elision_constants(W, key, cls, plan):
+    """Per tagged field: (field, constants the writer elides against, the definition's default term)."""
+    wr = plan["writer"]
+    for item in W.fields(key, cls, plan):
+        if item["kind"] != "tagged":
+            continue
+        f = item["f"]
+        want = spec_tagged_default_term(W.ctx, key, f["name"])
+        if want is None:
+            continue
+        consts = []
+        for tp in wr["tagged_paths"]:
+            for term, pol in tp["elided"]:
+                if term[0] == "eq" and isinstance(term[1], list) and term[1][0] == "attr" and term[1][2] == f["name"] and term[2] not in consts:
+                    consts.append(term[2])
+        yield f, consts, want
